@@ -1,9 +1,9 @@
 package main
 
 import (
-	"strings"
 	"encoding/json"
 	"fmt"
+	"strings"
 )
 
 func init() {
@@ -49,6 +49,10 @@ func scriptCorpus(c *Ctx, nRandom int, swEvery, exEvery int) (progs []*Prog, src
 			continue
 		}
 		p := swProgram(fmt.Sprintf("W%d", i), &f)
+		progs = append(progs, p)
+		srcs = append(srcs, RenderProg(p, Style{R: r}))
+	}
+	for _, p := range bigPrograms() {
 		progs = append(progs, p)
 		srcs = append(srcs, RenderProg(p, Style{R: r}))
 	}
